@@ -10,6 +10,8 @@ use std::panic::{catch_unwind, AssertUnwindSafe};
 use std::sync::{mpsc, Arc, Mutex};
 
 mod ops;
+#[cfg(spade_verif)]
+mod prims;
 pub use ops::*;
 
 fn main() {
